@@ -145,9 +145,11 @@ def convex_classes(chk, rng, n):
                 continue
         except Exception:  # noqa: BLE001
             continue
-        perms = list(itertools.permutations(range(len(P)))) if len(P) <= 5 else [rng.permutation(len(P)) for _ in range(60)]
-        for perm in perms:
-            V = np.c_[P[list(perm)], np.zeros(len(P))]
+        # ... the smallest polygons included: the triangle and the quadrilateral on the first vertices, every permutation of them
+        perms = [(P, pm) for pm in (list(itertools.permutations(range(len(P)))) if len(P) <= 5 else [rng.permutation(len(P)) for _ in range(60)])]
+        perms += [(P[:3], pm) for pm in itertools.permutations(range(3))] + [(P[:4], pm) for pm in itertools.permutations(range(4))][::2]
+        for Pk, perm in perms:
+            V = np.c_[Pk[list(perm)], np.zeros(len(Pk))]
             if np.cross(V[2] - V[1], V[0] - V[1])[2] == 0:
                 continue
             for cls, extra in ((S.ConvexPolygon, ()), (S.ConvexSpheropolygon, (0.25,))):
@@ -291,6 +293,33 @@ def input_forms(chk, rng):
             now = arg if isinstance(arg, np.ndarray) else [list(r) for r in arg]
             if (isinstance(arg, np.ndarray) and (not np.array_equal(now, keep) or now.dtype != keep.dtype)) or (not isinstance(arg, np.ndarray) and now != keep):
                 chk.violation("caller-array-modified", dict(desc))
+            if form == "float64 array":
+                # other array layouts and element types of the SAME values: float32 (values here are small integers, exact in float32),
+                # Fortran order, a strided view, a read-only array - the shape is the same and works in double precision
+                big = np.zeros((2 * len(Vint), 6)); big[::2, ::2] = Vint
+                ro = Vint.astype(np.float64); ro.setflags(write=False)
+                for form2, arg2 in (("float32 array", Vint.astype(np.float32)), ("Fortran-ordered array", np.asfortranarray(Vint.astype(np.float64))),
+                                    ("strided view", big[::2, ::2]), ("read-only array", ro), ("int32 array", Vint.astype(np.int32)),
+                                    ("uint8 array", (Vint - Vint.min()).astype(np.uint8) if name != "Polyhedron" else None)):
+                    if arg2 is None:
+                        continue
+                    off = float(Vint.min()) if form2 == "uint8 array" else 0.0
+                    st2, sh2 = C.excname(mk, arg2)
+                    chk.case([name, "input-form", form2], True)
+                    d2 = dict(cls=name, form=form2, vertices=Vint.tolist())
+                    if st2 != "ok":
+                        chk.violation("valid-input-form-rejected", dict(d2, error=st2)); continue
+                    v2 = np.asarray(sh2.vertices)
+                    ok2 = v2.dtype == np.float64 and np.array_equal(v2 + off, np.asarray(ref.vertices, float))
+                    # derived quantities are evaluated in double precision whatever the input's element type
+                    for q_ in (meas, "centroid", "inertia_tensor" if hasattr(type(ref), "inertia_tensor") else meas):
+                        a_, b_ = C.excname(lambda: np.asarray(getattr(sh2, q_), float)), C.excname(lambda: np.asarray(getattr(ref, q_), float))
+                        if q_ == "centroid" and a_[0] == "ok":
+                            a_ = ("ok", a_[1] + off)
+                        if off == 0.0 or q_ != "inertia_tensor":
+                            ok2 = ok2 and a_[0] == b_[0] and (a_[0] != "ok" or np.allclose(a_[1], b_[1], rtol=1e-11, atol=1e-11 * float(np.max(np.abs(b_[1])) + 1)))
+                    if not ok2:
+                        chk.violation("input-form-changes-shape", dict(d2, dtype=str(v2.dtype), what="same values in another array layout / element type give a different shape or single-precision results"))
             # a later in-place operation on the shape must not reach the caller's object either
             if isinstance(arg, np.ndarray):
                 sh.centroid = np.asarray(sh.centroid, float) + 1.0
